@@ -49,6 +49,7 @@ type cinstr struct {
 	t    *TInfo
 	t2   *TInfo
 	aux  interface{}
+	idxSigned bool
 }
 
 type cblock struct {
@@ -202,12 +203,17 @@ func (p *Program) doCompile(fn *ssa.Function) *cfunc {
 			case *ssa.Field:
 				ci.t = p.tt.Of(ins.X.Type())
 			case *ssa.IndexAddr:
+				ci.idxSigned = p.tt.Of(ins.Index.Type()).signed
 				ci.t2 = p.tt.Of(ins.X.Type())
 				ci.t = p.tt.Of(ins.Type().Underlying().(*types.Pointer).Elem())
 			case *ssa.Index:
+				ci.idxSigned = p.tt.Of(ins.Index.Type()).signed
 				ci.t = p.tt.Of(ins.Type())
 				ci.t2 = p.tt.Of(ins.X.Type())
 			case *ssa.Lookup:
+				if ix := p.tt.Of(ins.Index.Type()); ix.kind == KInt {
+					ci.idxSigned = ix.signed
+				}
 				ci.t = p.tt.Of(ins.Type())
 				ci.t2 = p.tt.Of(ins.X.Type())
 			case *ssa.MakeMap:
@@ -370,6 +376,9 @@ type Interp struct {
 	funcsEntered map[string]bool
 	frozenPre []*Obj
 	initSteps int64
+	gobW, gobR map[*Value]Iface
+	gobBlobs  []gobBlob
+	gobHostile bool
 	curCallee *ssa.Function
 	spec      int
 	specBase  int
@@ -379,7 +388,7 @@ type Interp struct {
 }
 
 func NewInterp(p *Program) *Interp {
-	it := &Interp{noMerge: os.Getenv("GOSX_NOMERGE") != "", p: p, globals: map[*ssa.Global]Ptr{}, mapSnap: map[*MapObj]bool{}, maxSteps: 20_000_000, funcsEntered: map[string]bool{}}
+	it := &Interp{gobW: map[*Value]Iface{}, gobR: map[*Value]Iface{}, noMerge: os.Getenv("GOSX_NOMERGE") != "", p: p, globals: map[*ssa.Global]Ptr{}, mapSnap: map[*MapObj]bool{}, maxSteps: 20_000_000, funcsEntered: map[string]bool{}}
 	return it
 }
 
